@@ -67,7 +67,7 @@ def build_harness():
         os.makedirs(os.path.dirname(BIN), exist_ok=True)
         subprocess.run([os.path.join(VERIF, "bin", "genmod.sh")], check=True, env=env)
         t0 = time.time()
-        p = subprocess.run(["go", "build", "-tags", "verif", "-o", BIN, "./cmd/vh"], cwd=os.path.join(VERIF, "harness"),
+        p = subprocess.run(["go", "build", "-buildvcs=false", "-tags", "verif", "-o", BIN, "./cmd/vh"], cwd=os.path.join(VERIF, "harness"),
                            env=env, stdout=subprocess.PIPE, stderr=subprocess.STDOUT, text=True)
         if p.returncode != 0:
             log(p.stdout[-4000:])
